@@ -9,6 +9,7 @@ import ZwVerif.Props.C03
 import ZwVerif.Props.C04
 import ZwVerif.Props.C05
 import ZwVerif.Props.C06
+import ZwVerif.Props.C06DieIt
 import ZwVerif.Props.C07
 import ZwVerif.Props.C08
 import ZwVerif.Props.C09
